@@ -213,11 +213,15 @@ def run(world, rep, tier, only=None):
     ifree = [c for c in calls_to(kf, "ext2fs_inode_alloc_stats2") if T.const(arg(c, 2)) == -1]
     rep.floor("C10.e inode release in kill_file_by_inode", len(ifree), 1)
     may_free_blocks = dbg.may(lambda f, n: is_call(n, "ext2fs_block_alloc_stats2") and T.const(arg(n, 2)) == -1)
-    blocks = [c for c in kf.call_nodes() if is_call(c, "ext2fs_punch") or (
-        is_call(c, "ext2fs_block_iterate3", "ext2fs_block_iterate2") and any(
-            isinstance(T.strip(a), dict) and T.strip(a).get("k") == "fn" and
-            any(g.key in may_free_blocks for g in dbg.lookup(T.strip(a)["n"], kf)) for a in c.ev["x"].get("a", [])))]
-    xattr = calls_to(kf, "ext2fs_free_ext_attr", "ext2fs_adjust_ea_refcount3", "ext2fs_adjust_ea_refcount2")
+    def frees_blocks(f, c):
+        return is_call(c, "ext2fs_punch") or (
+            is_call(c, "ext2fs_block_iterate3", "ext2fs_block_iterate2") and any(
+                isinstance(T.strip(a), dict) and T.strip(a).get("k") == "fn" and
+                any(g.key in may_free_blocks for g in dbg.lookup(T.strip(a)["n"], f)) for a in c.ev["x"].get("a", [])))
+    # directly, or in a helper the walk was moved into
+    blocks = [c for c in kf.call_nodes() if call_reaches(dbg, kf, c, frees_blocks)]
+    xattr = [c for c in kf.call_nodes() if call_reaches(dbg, kf, c, lambda f, n: is_call(
+        n, "ext2fs_free_ext_attr", "ext2fs_adjust_ea_refcount3", "ext2fs_adjust_ea_refcount2"))]
     dtime = calls_to(kf, "ext2fs_set_dtime") + [n for n in kf.events("S") if T.last_field(n.ev["lhs"]) and
                                                  T.last_field(n.ev["lhs"])[1] == "i_dtime"]
     for i, c in enumerate(ifree):
